@@ -127,7 +127,10 @@ fn finish(r: Result<Vec<Cell>, u8>) -> Vec<Cell> {
 /// violation the cells `Err k hint_upper remaining` are appended, which no model output contains.
 /// cell equality with NaN == NaN
 fn same(a: &[Cell], b: &[Cell]) -> bool { format!("{:?}", a) == format!("{:?}", b) }
+/// self-test switch: `C09_NO_ORACLE=1 ./check C09` runs with the model comparison alone
+fn oracle_off() -> bool { std::env::var_os("C09_NO_ORACLE").is_some() }
 fn nth_consistency<'a, T: Obs>(mk: &dyn Fn() -> BI<'a, T>, mask: u8, out: &mut Vec<Cell>) {
+    if oracle_off() { return; }
     for k in 0..3usize {
         let mut a = mk();
         let mut b = mk();
@@ -151,6 +154,7 @@ fn nth_consistency<'a, T: Obs>(mk: &dyn Fn() -> BI<'a, T>, mask: u8, out: &mut V
     }
 }
 fn nth_back_consistency<'a, T: Obs>(mk: &dyn Fn() -> BD<'a, T>, mask: u8, out: &mut Vec<Cell>) {
+    if oracle_off() { return; }
     for k in 0..3usize {
         let mut a = mk();
         let mut b = mk();
@@ -272,6 +276,132 @@ fn observe_dei<'a, T: Obs>(mk: &dyn Fn() -> BD<'a, T>, script: &[bool], mask: u8
         out.push(Cell::Sep);
         out
     })))
+}
+
+// ---- instruction scripts: Next | NextBack | Nth(k) | NthBack(k) (Model.Iter.instr) ---------------------
+#[derive(Clone, Copy, Debug, PartialEq)]
+enum Ins {
+    Next,
+    NextBack,
+    Nth(usize),
+    NthBack(usize),
+}
+fn cins(sc: &[Ins]) -> String {
+    coq_list(sc, |i| match i {
+        Ins::Next => "INext".into(),
+        Ins::NextBack => "INextBack".into(),
+        Ins::Nth(k) => format!("(INth {})", coq_nat(*k)),
+        Ins::NthBack(k) => format!("(INthBack {})", coq_nat(*k)),
+    })
+}
+fn rand_ins(r: &mut Rng, both: bool, kmax: usize) -> Ins {
+    match r.below(if both { 10 } else { 5 }) {
+        0 | 1 => Ins::Next,
+        2 | 3 | 4 => Ins::Nth(r.below(kmax + 1)),
+        5 | 6 => Ins::NextBack,
+        _ => Ins::NthBack(r.below(kmax + 1)),
+    }
+}
+/// a script of `n` instructions with at least one Nth / NthBack
+fn rand_script(r: &mut Rng, both: bool, n: usize, kmax: usize) -> Vec<Ins> {
+    let mut sc: Vec<Ins> = (0..n).map(|_| rand_ins(r, both, kmax)).collect();
+    if !sc.iter().any(|i| matches!(i, Ins::Nth(_) | Ins::NthBack(_))) {
+        let at = r.below(n.max(1));
+        let ins = if both && r.chance(1, 2) { Ins::NthBack(r.below(kmax + 1)) } else { Ins::Nth(r.below(kmax + 1)) };
+        if sc.is_empty() { sc.push(ins) } else { sc[at] = ins }
+    }
+    sc
+}
+fn has_nth_tag(sc: &[Ins]) -> String {
+    let nn = sc.iter().filter(|i| matches!(i, Ins::Nth(_))).count();
+    let nb = sc.iter().filter(|i| matches!(i, Ins::NthBack(_))).count();
+    format!("nths={} nth_backs={}", nn.min(3), nb.min(3))
+}
+
+/// observation along an instruction script, generic in the boxed iterator type: at every point the hint and the
+/// number of items a fresh copy (same prefix replayed) still yields, then the item of the instruction; after the
+/// script the rest, then `count()` and `last()` of fresh copies that replayed the whole script
+fn observe_x<B: Iterator>(
+    mk: &dyn Fn() -> B,
+    act: &dyn Fn(&mut B, Ins) -> Option<B::Item>,
+    script: &[Ins],
+    mask: u8,
+    oracle: &dyn Fn(&mut Vec<Cell>),
+) -> Vec<Cell>
+where
+    B::Item: Obs,
+{
+    finish(guarded(AssertUnwindSafe(|| {
+        let mut out = vec![];
+        let mut main = mk();
+        for j in 0..=script.len() {
+            hint_cells(main.size_hint(), &mut out);
+            let mut f = mk();
+            for i in &script[..j] {
+                act(&mut f, *i);
+            }
+            out.push(Cell::Int(count_rest(&mut f) as i128));
+            if j < script.len() {
+                match act(&mut main, script[j]) {
+                    Some(x) => x.put(mask, &mut out),
+                    None => out.push(Cell::Null),
+                }
+            }
+        }
+        let mut c = 0;
+        while let Some(x) = main.next() {
+            x.put(mask, &mut out);
+            c += 1;
+            if c > LIMIT {
+                break;
+            }
+        }
+        let mut f = mk();
+        for i in script {
+            act(&mut f, *i);
+        }
+        out.push(Cell::Int(Iterator::count(f) as i128));
+        let mut f = mk();
+        for i in script {
+            act(&mut f, *i);
+        }
+        match Iterator::last(f) {
+            Some(x) => x.put(mask, &mut out),
+            None => out.push(Cell::Null),
+        }
+        oracle(&mut out);
+        out.push(Cell::Sep);
+        out
+    })))
+}
+/// front instructions only (Box<dyn Iterator>)
+fn observe_xf<'a, T: Obs>(mk: &dyn Fn() -> BI<'a, T>, script: &[Ins], mask: u8) -> Vec<Cell> {
+    observe_x(
+        mk,
+        &|it: &mut BI<'a, T>, i| match i {
+            Ins::Next => it.next(),
+            Ins::Nth(k) => it.nth(k),
+            _ => panic!("back instruction on a forward-only iterator"),
+        },
+        script,
+        mask,
+        &|out| nth_consistency(mk, mask, out),
+    )
+}
+/// all four instructions (Box<dyn Dei>)
+fn observe_xd<'a, T: Obs>(mk: &dyn Fn() -> BD<'a, T>, script: &[Ins], mask: u8) -> Vec<Cell> {
+    observe_x(
+        mk,
+        &|it: &mut BD<'a, T>, i| match i {
+            Ins::Next => it.next(),
+            Ins::Nth(k) => it.nth(k),
+            Ins::NextBack => it.next_back(),
+            Ins::NthBack(k) => it.nth_back(k),
+        },
+        script,
+        mask,
+        &|out| nth_back_consistency(mk, mask, out),
+    )
 }
 
 /// contract check by plain iteration on fresh copies: hint == count before any consumption
@@ -473,6 +603,7 @@ fn main() {
     let thorough = em.thorough();
     let seed = em.args.seed;
     let maxlen: usize = if thorough { 7 } else { 5 };
+    let mut xr = Rng::new(seed.wrapping_mul(0x51ED) ^ 0x0C09_0021);   // instruction scripts
 
     // =========================================================================================
     // A. shift-like adaptors: exhaustive critical band of the lag, partially consumed inputs
@@ -500,6 +631,18 @@ fn main() {
                             || format!("(obs 0 (fw {}) (vshift {} {} (pre {} {} {})))", coq_nat(steps), cz(n as i64), cov(v), coq_nat(kf), coq_nat(kb), cl(&xs)),
                             || observe_fwd(&|| fwd(pre_iter!(xs, kf, kb).vshift(n, v)), steps, 0));
                     }
+                    // instruction scripts over {next, nth k}: vshift(None) and shift
+                    {
+                        let nsc = 2 + xr.below(3);
+                        let sc = rand_script(&mut xr, false, nsc, len + 1);
+                        let tgx = |f: &str| format!("{} {}", tg(f), has_nth_tag(&sc));
+                        em.case("exact", &tgx("vshift_x"), &format!("vshift(n={}, value=None) on {:?}.titer() after {} next() and {} next_back(); script {:?}", n, xs, kf, kb, sc),
+                            || format!("(obsx 0 {} (vshift {} None (pre {} {} {})))", cins(&sc), cz(n as i64), coq_nat(kf), coq_nat(kb), cl(&xs)),
+                            || observe_xf(&|| fwd(pre_iter!(xs, kf, kb).vshift(n, None)), &sc, 0));
+                        em.case("exact", &tgx("shift_x"), &format!("shift(n={}, value=0.0) on {:?}.titer() after {} next() and {} next_back(); script {:?}", n, xs, kf, kb, sc),
+                            || format!("(obsx 0 {} (shift {} (VZ 0) (pre {} {} {})))", cins(&sc), cz(n as i64), coq_nat(kf), coq_nat(kb), cl(&xs)),
+                            || observe_xf(&|| fwd(pre_iter!(xs, kf, kb).shift(n, 0.0)), &sc, 0));
+                    }
                     if mask == 0 {
                         // i32 elements (never null)
                         em.case("exact", &tg("shift_i32"), &ds("shift::<i32>", "0"),
@@ -523,6 +666,30 @@ fn main() {
                 em.case("exact", &tgb("vshift_nd"), &format!("vshift(n={}, None) on Array1 {:?}", n, xs),
                     || term.clone(), || { let a = Array1::from_vec(xs.clone()); observe_fwd(&|| fwd(a.titer().vshift(n, None)), steps, 0) });
 
+                // instruction scripts on the other adaptors / backends, and StepBy (std's client of nth) around them
+                {
+                    let nsc = 2 + xr.below(3);
+                    let sc = rand_script(&mut xr, false, nsc, len + 1);
+                    let tgx = |f: &str| format!("{} {}", tgb(f), has_nth_tag(&sc));
+                    em.case("exact", &tgx("vshift_deque_x"), &format!("vshift(n={}, None) on VecDeque(rot 1) {:?}; script {:?}", n, xs, sc),
+                        || format!("(obsx 0 {} (vshift {} None (pre 0%nat 0%nat {})))", cins(&sc), cz(n as i64), cl(&xs)),
+                        || { let d = rot_deque(&xs, 1); observe_xf(&|| fwd(d.titer().vshift(n, None)), &sc, 0) });
+                    em.case("exact", &tgx("vdiff_x"), &format!("vdiff(n={}, None) on Vec {:?}; script {:?}", n, xs, sc),
+                        || format!("(obsx 0 {} (vdiff {} None {}))", cins(&sc), cz(n as i64), cl(&xs)),
+                        || observe_xf(&|| fwd(xs.vdiff(n, None)), &sc, 0));
+                    em.case("exact", &tgx("vpct_change_x"), &format!("vpct_change(n={}) on Vec {:?}; script {:?}", n, xs, sc),
+                        || format!("(obsx 1 {} (vpct_change {} {}))", cins(&sc), cz(n as i64), cl(&xs)),
+                        || observe_xf(&|| fwd(xs.vpct_change(n)), &sc, 1));
+                    if (n.unsigned_abs() as usize) <= len + 1 {
+                        let st = 1 + xr.below(3);
+                        em.case("exact", &format!("{} step={}", tgb("vshift_step_by"), st), &format!("vshift(n={}, None).step_by({}) on Vec {:?}; {} next() steps", n, st, xs, steps),
+                            || format!("(obs_sb 0 {} {} (vshift {} None (pre 0%nat 0%nat {})))", coq_nat(steps), coq_nat(st), cz(n as i64), cl(&xs)),
+                            || observe_fwd(&|| fwd(xs.titer().vshift(n, None).step_by(st)), steps, 0));
+                        em.case("exact", &format!("{} step={}", tgb("vdiff_step_by"), st), &format!("vdiff(n={}, None).step_by({}) on Vec {:?}; {} next() steps", n, st, xs, steps),
+                            || format!("(obs_sb 0 {} {} (vdiff {} None {}))", coq_nat(steps), coq_nat(st), cz(n as i64), cl(&xs)),
+                            || observe_fwd(&|| fwd(xs.vdiff(n, None).step_by(st)), steps, 0));
+                    }
+                }
                 // vdiff / vpct_change on views
                 for v in [None, Some(-7.0)] {
                     let m: u8 = 0;
@@ -648,6 +815,16 @@ fn main() {
                         em.case("exact", &tags("varg_partition"), &format!("varg_partition(kth={}, sort={}, rev={}) on {:?}", kth, sort, rev, xs),
                             || format!("(obs_ok 2 (fw {}) (varg_partition {} {} {}))", coq_nat(steps), coq_nat(kth), coq_bool(sort), cl(&xs)),
                             || observe_fwd(&|| fwd(xs.varg_partition(kth, sort, rev)), steps, 2));
+                        if !rev {
+                            let nsc = 2 + xr.below(2);
+                            let sc = rand_script(&mut xr, false, nsc, kth + 1);
+                            em.case("exact", &format!("{} {}", tags("vpartition_x"), has_nth_tag(&sc)), &format!("vpartition(kth={}, sort={}, rev={}) on {:?}; script {:?}", kth, sort, rev, xs, sc),
+                                || format!("(obsx_ok 2 {} (vpartition {} {} {}))", cins(&sc), coq_nat(kth), coq_bool(sort), cl(&xs)),
+                                || observe_xf(&|| fwd(xs.vpartition(kth, sort, rev)), &sc, 2));
+                            em.case("exact", &format!("{} {}", tags("varg_partition_x"), has_nth_tag(&sc)), &format!("varg_partition(kth={}, sort={}, rev={}) on {:?}; script {:?}", kth, sort, rev, xs, sc),
+                                || format!("(obsx_ok 2 {} (varg_partition {} {} {}))", cins(&sc), coq_nat(kth), coq_bool(sort), cl(&xs)),
+                                || observe_xf(&|| fwd(xs.varg_partition(kth, sort, rev)), &sc, 2));
+                        }
                     }
                 }
             }
@@ -696,6 +873,16 @@ fn main() {
             em.case("exact", &tags("ndarray"), &format!("rolling_custom_iter(w={}) on Array1 {:?}", w, xs), || term.clone(),
                 || { let a = Array1::from_vec(xs.clone());
                      observe_fwd(&|| fwd(a.rolling_custom_iter(w, |sl: ArrayView1<'_, f64>| (sl.len(), sl[0]))), steps, 0) });
+            {
+                let nsc = 2 + xr.below(3);
+                let sc = rand_script(&mut xr, false, nsc, len + 1);
+                let termx = format!("(obsx 0 {} (rolling_custom_iter {} {}))", cins(&sc), coq_nat(w), cl(&xs));
+                em.case("exact", &format!("{} script=x {}", tags("vec"), has_nth_tag(&sc)), &format!("rolling_custom_iter(w={}) on Vec {:?}; script {:?}", w, xs, sc), || termx.clone(),
+                    || observe_xf(&|| fwd(xs.rolling_custom_iter(w, |sl: &[f64]| (sl.len(), sl[0]))), &sc, 0));
+                em.case("exact", &format!("{} script=x {}", tags("deque"), has_nth_tag(&sc)), &format!("rolling_custom_iter(w={}) on VecDeque(rot 1) {:?}; script {:?}", w, xs, sc), || termx.clone(),
+                    || { let d = rot_deque(&xs, 1);
+                         observe_xf(&|| fwd(d.rolling_custom_iter(w, |sl: std::collections::vec_deque::Iter<'_, f64>| (ExactSizeIterator::len(&sl), *sl.clone().next().unwrap()))), &sc, 0) });
+            }
         }
     }
 
@@ -837,6 +1024,34 @@ fn main() {
             }
         }
 
+        // H'. / I'. the same backends and to_trust(k) under scripts over all four instructions
+        for _ in 0..(if len <= 3 { 8 } else { 5 }) {
+            let sc = rand_script(&mut xr, true, len + 1, 2);
+            let term = format!("(obsx_ok 0 {} (IList {}))", cins(&sc), cl(&xs));
+            let tags = |be: &str| format!("fn=titer_x be={} len={} {}{}", be, len, has_nth_tag(&sc), nt(len));
+            let desc = |be: &str| format!("{} titer of {:?}, script {:?}", be, xs, sc);
+            em.case("exact", &tags("vec"), &desc("Vec"), || term.clone(), || observe_xd(&|| dei(xs.titer()), &sc, 0));
+            em.case("exact", &tags("deque"), &desc("VecDeque(rot 1)"), || term.clone(),
+                || { let d = rot_deque(&xs, 1); observe_xd(&|| dei(d.titer()), &sc, 0) });
+            em.case("exact", &tags("nd_owned"), &desc("Array1"), || term.clone(),
+                || { let a = Array1::from_vec(xs.clone()); observe_xd(&|| dei(a.titer()), &sc, 0) });
+            em.case("exact", &tags("nd_step2"), &desc("ArrayView1 step 2"), || term.clone(), || {
+                let mut big = vec![-7.0; 2 * len];
+                for i in 0..len { big[2 * i] = xs[i] }
+                let a = Array1::from_vec(big);
+                let v: ArrayView1<f64> = a.slice(s![..;2]);
+                observe_xd(&|| dei(v.titer()), &sc, 0)
+            });
+            em.case("exact", &tags("optview"), &desc("opt view"), || term.clone(), || { let o = xs.opt(); observe_xd(&|| dei(o.titer()), &sc, 0) });
+            em.case("exact", &tags("vec_opt"), &desc("Vec<Option<f64>>"), || term.clone(), || observe_xd(&|| dei(xo.titer()), &sc, 0));
+            for k in 0..=len + 2 {
+                em.case("exact", &format!("fn=to_trust_x len={} declared={} {}{}", len, if k == len { "right" } else if k < len { "short" } else { "long" }, has_nth_tag(&sc), nt(len)),
+                    &format!("titer().to_trust({}) of {:?}, script {:?}", k, xs, sc),
+                    || format!("(obsx_ok 0 {} (ITrust (IList {}) {}))", cins(&sc), cl(&xs), coq_nat(k)),
+                    || observe_xd(&|| dei(xs.titer().to_trust(k)), &sc, 0));
+            }
+        }
+
         // J. std adaptors the library declares TrustedLen, double-ended where std allows it
         let ys: Vec<f64> = (0..(len + 1) / 2 + 1).map(|i| (10 * (i + 1)) as f64).collect();
         for _ in 0..(if len <= 3 { 6 } else { 3 }) {
@@ -875,7 +1090,53 @@ fn main() {
             em.case("exact", &tags("range"), &format!("({}..{}), script {:?}", k, len + 1, sc),
                 || format!("(obs_ok 0 {} (IRange {} {}))", cscript(&sc), coq_nat(k), coq_nat(len + 1)),
                 || observe_dei(&|| dei(k..len + 1), &sc, 0));
+            // the same adaptors under scripts over all four instructions: std overrides nth / nth_back in Chain, Rev,
+            // Take, Skip, Enumerate, Range, RepeatN, the slice iterators - the model has the defaults (k+1 x next)
+            let xsc = rand_script(&mut xr, true, sl.min(5), 2);
+            let tagx = |f: &str| format!("fn=std_{}_x len={} {}{}", f, len, has_nth_tag(&xsc), nt(len));
+            em.case("exact", &tagx("chain"), &format!("{:?}.titer().chain({:?}.titer()), script {:?}", xs, ys, xsc),
+                || format!("(obsx_ok 0 {} (IChain true true (IList {}) (IList {})))", cins(&xsc), cl(&xs), cl(&ys)),
+                || observe_xd(&|| dei(xs.titer().chain(ys.titer())), &xsc, 0));
+            em.case("exact", &tagx("chain_trust"), &format!("{:?}.titer().to_trust(len).chain({:?}.titer()).to_trust(total), script {:?}", xs, ys, xsc),
+                || format!("(obsx_ok 0 {} (ITrust (IChain true true (ITrust (IList {}) {}) (IList {})) {}))", cins(&xsc), cl(&xs), coq_nat(xs.len()), cl(&ys), coq_nat(xs.len() + ys.len())),
+                || observe_xd(&|| dei(xs.titer().to_trust(xs.len()).chain(ys.titer()).to_trust(xs.len() + ys.len())), &xsc, 0));
+            em.case("exact", &tagx("rev_chain"), &format!("{:?}.titer().rev().chain({:?}.titer()).rev(), script {:?}", xs, ys, xsc),
+                || format!("(obsx_ok 0 {} (IRev (IChain true true (IRev (IList {})) (IList {}))))", cins(&xsc), cl(&xs), cl(&ys)),
+                || observe_xd(&|| dei(xs.titer().rev().chain(ys.titer()).rev()), &xsc, 0));
+            em.case("exact", &tagx("rev_trust"), &format!("{:?}.titer().to_trust(len).rev(), script {:?}", xs, xsc),
+                || format!("(obsx_ok 0 {} (IRev (ITrust (IList {}) {})))", cins(&xsc), cl(&xs), coq_nat(xs.len())),
+                || observe_xd(&|| dei(xs.titer().to_trust(xs.len()).rev()), &xsc, 0));
+            em.case("exact", &tagx("zip"), &format!("{:?}.titer().to_trust(len).zip({:?}.titer().to_trust(len)), script {:?}", xs, ys, xsc),
+                || format!("(obsx_ok 0 {} (IZip (ITrust (IList {}) {}) (ITrust (IList {}) {})))", cins(&xsc), cl(&xs), coq_nat(xs.len()), cl(&ys), coq_nat(ys.len())),
+                || observe_xd(&|| dei(xs.titer().to_trust(xs.len()).zip(ys.titer().to_trust(ys.len()))), &xsc, 0));
+            em.case("exact", &tagx("take"), &format!("{:?}.titer().to_trust(len).take({}), script {:?}", xs, k, xsc),
+                || format!("(obsx_ok 0 {} (ITake (ITrust (IList {}) {}) {}))", cins(&xsc), cl(&xs), coq_nat(xs.len()), coq_nat(k)),
+                || observe_xd(&|| dei(xs.titer().to_trust(xs.len()).take(k)), &xsc, 0));
+            em.case("exact", &tagx("skip"), &format!("{:?}.titer().to_trust(len).skip({}).to_trust({}), script {:?}", xs, k, rest, xsc),
+                || format!("(obsx_ok 0 {} (ITrust (ISkip (ITrust (IList {}) {}) {}) {}))", cins(&xsc), cl(&xs), coq_nat(xs.len()), coq_nat(k), coq_nat(rest)),
+                || observe_xd(&|| dei(xs.titer().to_trust(xs.len()).skip(k).to_trust(rest)), &xsc, 0));
+            em.case("exact", &tagx("enumerate"), &format!("{:?}.titer().to_trust(len).enumerate(), script {:?}", xs, xsc),
+                || format!("(obsx_ok 0 {} (IEnum (ITrust (IList {}) {}) 0%nat))", cins(&xsc), cl(&xs), coq_nat(xs.len())),
+                || observe_xd(&|| dei(xs.titer().to_trust(xs.len()).enumerate()), &xsc, 0));
+            em.case("exact", &tagx("map"), &format!("{:?}.titer().to_trust(len).map(|x| x + 100), script {:?}", xs, xsc),
+                || format!("(obsx_ok 0 {} (IMap (fun v => vadd v (VZ 100)) (ITrust (IList {}) {})))", cins(&xsc), cl(&xs), coq_nat(xs.len())),
+                || observe_xd(&|| dei(xs.titer().to_trust(xs.len()).map(|x| x + 100.0)), &xsc, 0));
+            em.case("exact", &tagx("repeat_n"), &format!("repeat_n(5.0, {}), script {:?}", k, xsc),
+                || format!("(obsx_ok 0 {} (IRepeatN (VZ 5) {}))", cins(&xsc), coq_nat(k)),
+                || observe_xd(&|| dei(std::iter::repeat_n(5.0, k)), &xsc, 0));
+            em.case("exact", &tagx("range"), &format!("({}..{}), script {:?}", k, len + 1, xsc),
+                || format!("(obsx_ok 0 {} (IRange {} {}))", cins(&xsc), coq_nat(k), coq_nat(len + 1)),
+                || observe_xd(&|| dei(k..len + 1), &xsc, 0));
+            // StepBy around a container iterator and around a TrustIter, against the model (not only by the contract)
+            let st = 1 + xr.below(3);
+            em.case("exact", &format!("fn=std_step_by_x len={} step={}{}", len, st, nt(len)), &format!("{:?}.titer().to_trust(len).step_by({}); {} next() steps", xs, st, len + 1),
+                || format!("(obs_sb 0 {} {} (Ok (ITrust (IList {}) {})))", coq_nat(len + 1), coq_nat(st), cl(&xs), coq_nat(xs.len())),
+                || observe_fwd(&|| fwd(xs.titer().to_trust(xs.len()).step_by(st)), len + 1, 0));
         }
+        // step_by(0): `assert!(step != 0)` in StepBy::new, Panic AssertFail in Model.Iter.step_by
+        em.case("exact", &format!("fn=std_step_by_x len={} step=0{}", len, nt(len)), &format!("{:?}.titer().to_trust(len).step_by(0)", xs),
+            || format!("(obs_sb 0 1%nat 0%nat (Ok (ITrust (IList {}) {})))", cl(&xs), coq_nat(xs.len())),
+            || observe_fwd(&|| fwd(xs.titer().to_trust(xs.len()).step_by(0)), 1, 0));
         // std adaptors that are not modelled: the contract itself (hint - count = 0 at every point)
         {
             let steps = len + 1;
@@ -1016,7 +1277,7 @@ fn main() {
     // =========================================================================================
     let npipes = if thorough { 30000 } else { 1800 };
     let mut r = Rng::new(seed ^ 0x5eed_c09);
-    for _ in 0..npipes {
+    for pi in 0..npipes {
         let len = r.below(9);
         let pat = *r.pick(&NULL_PATTERNS);
         let nm = null_mask(&mut r, pat, len);
@@ -1041,6 +1302,13 @@ fn main() {
         em.case("exact", &tags, &format!("pipeline src={:?} xs={:?} stages={:?}; {} next() steps", src, xs, stages, steps),
             || format!("(obs 0 (fw {}) (build {} {}))", coq_nat(steps), coq_src(&src, &xs), coq_list(&stages, coq_stage)),
             || observe_fwd(&|| fwd(build(&src, &stages, &xs)), steps, 0));
+        if pi % 2 == 0 {
+            let nsc = 2 + xr.below(4);
+            let sc = rand_script(&mut xr, false, nsc, 3);
+            em.case("exact", &format!("{} script=x {}", tags, has_nth_tag(&sc)), &format!("pipeline src={:?} xs={:?} stages={:?}; script {:?}", src, xs, stages, sc),
+                || format!("(obsx 0 {} (build {} {}))", cins(&sc), coq_src(&src, &xs), coq_list(&stages, coq_stage)),
+                || observe_xf(&|| fwd(build(&src, &stages, &xs)), &sc, 0));
+        }
     }
 
     em.finish();
